@@ -276,9 +276,35 @@ impl Sub for Concurrent {
     }
 }
 
+const MACHINE_ORACLE: crate::machine::Oracle = crate::machine::Oracle::Verification;
+const MACHINE_OPS: usize = 40;
+
+/// The API history machine (harness/src/machine.rs) with this property's invariant.
+pub struct ApiHistory;
+
+impl Sub for ApiHistory {
+    type Case = crate::machine::History;
+    fn name(&self) -> &'static str {
+        "api_history"
+    }
+    fn max_shrink_iters(&self) -> u32 {
+        200
+    }
+    fn strategy(&self, _env: &Env) -> BoxedStrategy<crate::machine::History> {
+        crate::machine::strategy(MACHINE_OPS)
+    }
+    fn check(&self, c: &crate::machine::History, st: &mut Stats) -> Result<(), Fail> {
+        crate::machine::run(c, MACHINE_ORACLE, st)?;
+        st.nontrivial(&format!("{:?}", c.ops));
+        st.sample("api_history", || serde_json::json!({"variants": c.variants, "ops": c.ops.iter().take(12).collect::<Vec<_>>()}));
+        Ok(())
+    }
+}
+
 const META: Meta = Meta {
     rule: "proptest (key, message, signer randomness): keys from a per-run list of seeds (32 x Falcon-512 + 16 x Falcon-1024 at quick); messages of length 0, 1-2, 3-64, 94-98, 230-234 (40+len straddles the SHAKE-256 rate), ~1 KiB and 100 KiB, random / all-zero / all-0xFF; signer randomness natural (thread_rng), seeded uniform, or zero-biased through the SignRng hook (each byte of a prefix is 0x00 with probability p/65536: a zero top byte forces BaseSampler to z0 >= 5, inflating the vector's norm so that it straddles floor(beta^2) and drives the norm-retry loop and, for Falcon-1024, the compression-retry loop; the stream turns uniform after the prefix so that signing terminates). One signature in four is made with a clone of the key written into a per-thread slot, so that different keys follow each other at one address. Oracle: verify accepts, and the reference verifier accepts the serialised triple. Concurrency scenarios: 2-32 threads released by a barrier share one secret key, each signing its own message list (threads 0 and 1 the same list), natural and biased mixed; every scenario runs 8 rounds, each on a fresh secret-key object (decoded from bytes or generated again) that has never signed, half of them warmed up by one signature first. Non-trivial = a signature that took a norm or compression retry, an empty or >= 1000-byte message, or a scenario with >= 8 threads; distinct by hash.",
     assumptions: &[
+        "api_history sub-check: generated histories of 6-60 operations over four in-place key slots (load a fresh object, regenerate, clone, encode/decode, drop, sign and verify on this or a fresh thread; messages include the empty one and two large ones of equal length), interpreted against the obvious model with this property's invariant",
         "thread interleavings are stressed, not enumerated: the signer has no shared mutable state (no unsafe, no statics, thread-local generator, the secret key is only read)",
         "the SignRng hook only replaces the byte source; the body of sign runs unchanged on top of it",
         "for Falcon-512 the compression-retry branch is not reachable through signer randomness within the norm bound (measured: 0 in thousands of boundary-straddling attempts); it is reached for Falcon-1024",
@@ -287,7 +313,7 @@ const META: Meta = Meta {
 
 pub fn run(env: &Env, replay: Option<&Path>) -> i32 {
     let mut report = Report::new();
-    let subs: [&dyn DynSub; 3] = [&Honest, &Concurrent, &Triple];
+    let subs: [&dyn DynSub; 4] = [&Honest, &Concurrent, &Triple, &ApiHistory];
     if let Some(p) = replay {
         if let Err(e) = replay_file(env, &subs, p, &mut report) {
             eprintln!("harness: {}", e);
@@ -300,5 +326,6 @@ pub fn run(env: &Env, replay: Option<&Path>) -> i32 {
     report.extra.insert("keys".into(), json!({"falcon512": keys.iter().filter(|k| k.0 == 512).count(), "falcon1024": keys.iter().filter(|k| k.0 == 1024).count()}));
     drive(env, &Honest, env.tier.pick(12_000, 900_000), &mut report);
     drive(env, &Concurrent, env.tier.pick(3, 24), &mut report);
+    drive(env, &ApiHistory, env.tier.pick(1_500, 60_000), &mut report);
     finish(env, report, &META)
 }
